@@ -8,7 +8,7 @@
 From Coq Require Import Reals Lra List Bool Arith ZArith.
 From Coquelicot Require Import Complex.
 From QV Require Import Sem Mat2 Toff2 Chain Barenco GateA McxModel LinearMcx LdmcsuModel QdmcuModel.
-From QV Require LdmcuCore LdmcuModel LdmcuInst AbcModel.
+From QV Require LdmcuCore LdmcuModel LdmcuInst AbcModel LdmcsuEig.
 Open Scope R_scope.
 
 (* CV(c->t) ; MCX(rest->c) ; CV^dagger(c->t) ; MCX(rest->c) ; C^{rest}V(t)  =  U on t controlled on rest /\ c,
@@ -106,3 +106,14 @@ Theorem C04_ldmc_special : forall (M : nat -> mat2) (MA MB MC U : mat2),
   AbcModel.arun M (AbcModel.abc k pat) psi = appf (fun x => if pmatch pat k x then U else I2) k psi.
 Proof. exact AbcModel.abc_sem. Qed.
 Print Assumptions C04_ldmc_special.
+
+(* Ldmcsu, SU(2) matrices with both diagonals complex (U = V D V^dagger): half_linear_depth_mcv(inverse), linear_depth_mcv of the
+   diagonal with the optimisation, half_linear_depth_mcv.  Two V-chains are action_only: their residue on the borrowed qubits is
+   undone by the inverse chain, across the one-qubit gates that sit in between (LdmcsuEig.middle_eig).  M 0..5 = H, S, S^dagger,
+   the Hadamard-like gate, A, A^dagger; Wf q1 q2 is the product of the one-qubit gates when the two half-register V-chains fire
+   according to q1, q2.  Every k >= 2 and every control pattern. *)
+Theorem C04_ldmcsu_eig : forall (k : nat), 2 <= k -> forall (pat : list bool) (M : nat -> mat2) (U : mat2),
+  LdmcsuEig.Wf M true true = U -> LdmcsuEig.Wf M true false = I2 -> LdmcsuEig.Wf M false true = I2 -> LdmcsuEig.Wf M false false = I2 ->
+  forall psi, AbcModel.arun M (LdmcsuEig.eig k pat) psi = appf (fun b => if pmatch pat k b then U else I2) k psi.
+Proof. exact LdmcsuEig.eig_sem. Qed.
+Print Assumptions C04_ldmcsu_eig.
